@@ -859,6 +859,9 @@ func (e *Engine) modelInScope(target string) bool {
 	if p == nil && e.harness.Fn.Origin() != nil {
 		p = e.harness.Fn.Origin().Package()
 	}
+	if e.harness.Real[target] {
+		return false // the harness verifies the real body of a function of /repo that other harnesses replace by a model
+	}
 	return p == nil || e.W.ModelPkg[target] == "" || e.W.ModelPkg[target] == p.Pkg.Path()
 }
 
